@@ -1,6 +1,6 @@
 """C14 - purity, repeatability, non-interference."""
-import copy
-from vlib import gen, harness, wire
+import copy, json, os, subprocess, sys
+from vlib import build, gen, harness, wire
 from vlib.runner import Case
 
 PID = "C14"
@@ -70,6 +70,85 @@ def fresh_result(make_env, text, doc):
         return [1] + enc[:2] + ([0] if enc[0] == 1 else [])
 
 
+def run_slice(jops):
+    """(in a fresh process) one environment, its registrations, at most one compile, then the operation in question: what the operation gives
+    when nothing else has ever run in the process"""
+    import jsonpath_rfc9535 as jp
+    from jsonpath_rfc9535.function_extensions import FilterFunction, ExpressionType
+    T = {1: ExpressionType.VALUE, 2: ExpressionType.LOGICAL, 3: ExpressionType.NODES}
+    env = None; cq = None; o = None
+    for j in jops:
+        k = j["k"]
+        if k == "env":
+            class E(jp.JSONPathEnvironment):
+                max_recursion_depth = j["depth"]
+                min_int_index = j["lo"]
+                max_int_index = j["hi"]
+            env = E()
+        elif k == "reg":
+            class D(FilterFunction):
+                arg_types = [T[a] for a in j["args"]]
+                return_type = T[j["ret"]]
+                const = j["const"]
+
+                def __call__(self, *a): return self.const
+            env.function_extensions[j["name"]] = D()
+        elif k == "compile":
+            try: cq = env.compile(j["text"]); o = [2, 0]
+            except Exception as ex: o = [2] + wire.enc_exception(ex)
+        elif k == "apply":
+            try: o = [1] + harness.enc_nodes(cq.find(j["doc"]))
+            except Exception as ex: o = [1] + enc_find_error(ex)
+        elif k == "find":
+            try: o = [1] + harness.enc_nodes(env.find(j["text"], j["doc"]))
+            except Exception as ex: o = [1] + enc_find_error(ex)
+        elif k == "mfind":
+            try: o = [1] + harness.enc_nodes(jp.find(j["text"], j["doc"]))
+            except Exception as ex: o = [1] + enc_find_error(ex)
+    return o
+
+
+def slice_for(jops, k):
+    """the operations operation k rests on by the property's own terms: its environment, what was registered on it before, the compile it applies"""
+    j = jops[k]
+    if j["k"] == "mfind": return [j]
+    upto = k
+    if j["k"] == "apply":
+        upto = j["cop"]
+    e = jops[upto]["e"] if jops[upto]["k"] != "env" else None
+    pre = [x for x in jops[:upto] if (x["k"] == "env" and x["idx"] == e) or (x["k"] == "reg" and x["e"] == e)]
+    return pre + ([jops[upto]] if upto != k else []) + [j]
+
+
+def alone(jops, k):
+    """operation k run on its own in a fresh interpreter; None when that cannot be done"""
+    root = os.environ.get("VERIF_ROOT", "/verif")
+    code = "import sys, json; from checks import c14; print(json.dumps(c14.run_slice(json.load(sys.stdin))))"
+    env = dict(os.environ, PYTHONPATH=os.pathsep.join([os.path.join(root, "tools"), build.REPO]), PYTHONHASHSEED="0")
+    try:
+        r = subprocess.run([sys.executable, "-c", code], input=json.dumps(slice_for(jops, k)), capture_output=True, text=True, env=env, timeout=120)
+        return json.loads(r.stdout.strip().split("\n")[-1]) if r.returncode == 0 else None
+    except Exception:
+        return None
+
+
+def first_difference(exe, ops, outs):
+    """index of the first operation on which the history model and the implementation disagree (the model run on growing prefixes), or None"""
+    def differs(m):
+        req = [12, 0, m]
+        for o in ops[:m]: req += o
+        out = [m]
+        for o in outs[:m]: out += o
+        return norm_reply(build.run_jpx(exe, [req])[0]) != out
+    if not ops or not differs(len(ops)): return None
+    lo, hi = 1, len(ops)
+    while lo < hi:
+        mid = (lo + hi) // 2
+        if differs(mid): hi = mid
+        else: lo = mid + 1
+    return lo - 1
+
+
 def cases(ctx, budget):
     import jsonpath_rfc9535 as jp
     from jsonpath_rfc9535.function_extensions import FilterFunction, ExpressionType
@@ -84,9 +163,11 @@ def cases(ctx, budget):
 
             def __call__(self, *a): return const
         return D()
+    pend = []
     for h in range(n):
         envs, compiled, docs = [], [], []
         ops, outs, problems, log = [], [], [], []
+        jops = []; cop = {}     # the operations again in a form a fresh process can run; compiled-query number -> its compile operation
         for _ in range(rng.randint(2, 4)):
             docs.append(gen.rand_json(rng, depth=rng.randint(1, 3), fan=4, top=True))
         steps = rng.randint(10, 40)
@@ -110,6 +191,7 @@ def cases(ctx, budget):
                     classes[key] = E
                 envs.append(classes[key]()); regs.append([]); cfgs.append(key); regobjs.append({})
                 ops.append([0, depth, lo, hi, 0]); outs.append([0]); log.append("new env depth=%d range=%d..%d" % (depth, lo, hi))
+                jops.append({"k": "env", "idx": len(envs) - 1, "depth": depth, "lo": lo, "hi": hi})
                 continue
             if r > 0.93:
                 # mutate one document in place (the caller's own business; results must follow the new content)
@@ -136,6 +218,7 @@ def cases(ctx, budget):
                 regs[e] = [x for x in regs[e] if x[0] != name] + [(name, args, ret, [5] + gen.enc_pyobj(const))]
                 if name == "length": reg4 = None
                 ops.append([1, e] + wire.enc_str(name) + [len(args)] + args + [ret, 5] + gen.enc_pyobj(const)); outs.append([0])
+                jops.append({"k": "reg", "e": e, "name": name, "args": args, "ret": ret, "const": const})
                 log.append("register env%d %s%r->%d const=%r" % (e, name, args, ret, const))
             elif r < 0.4:
                 text = mk_text()
@@ -144,6 +227,8 @@ def cases(ctx, budget):
                 except Exception as ex:
                     o = [2] + wire.enc_exception(ex)
                 ops.append([2, e] + wire.enc_str(text)); outs.append(o); log.append("compile env%d %r -> %r" % (e, text, o[:3]))
+                jops.append({"k": "compile", "e": e, "text": text})
+                if o[:2] == [2, 0]: cop[o[2]] = len(jops) - 1
             elif (r < 0.65 or pending_reapply) and compiled:
                 c = rng.randrange(len(compiled)); d = rng.randrange(len(docs))
                 if pending_reapply:
@@ -156,6 +241,7 @@ def cases(ctx, budget):
                 except Exception as ex: o = [1] + enc_find_error(ex)
                 if wire.enc_json(before) != wire.enc_json(docs[d]) or idb != ids(docs[d], []): problems.append("apply modified its argument")
                 ops.append([3, c] + wire.enc_json(before)); outs.append(o); log.append("apply cq%d doc%d -> %r" % (c, d, o[:3]))
+                jops.append({"k": "apply", "cop": cop[c], "doc": before})
             elif r < 0.85:
                 text = mk_text(); d = rng.randrange(len(docs))
                 before = copy.deepcopy(docs[d]); idb = ids(docs[d], [])
@@ -176,6 +262,7 @@ def cases(ctx, budget):
                 except Exception as ex: of = [1] + enc_find_error(ex)
                 if of != o: problems.append("env%d.find(%r) after this history differs from the same call on a fresh environment with the same registrations" % (e, text))
                 ops.append([4, e] + wire.enc_str(text) + wire.enc_json(before)); outs.append(o); log.append("find env%d %r doc%d -> %r" % (e, text, d, o[:3]))
+                jops.append({"k": "find", "e": e, "text": text, "doc": before})
             else:
                 text = gen.render_query(rng, gen.rand_query(rng, names=names, reg=[b for b in gen.BUILTINS if b[0] not in ('match', 'search')], depth=2, maxseg=3)); d = rng.randrange(len(docs))
                 before = copy.deepcopy(docs[d])
@@ -183,6 +270,7 @@ def cases(ctx, budget):
                 except Exception as ex: o = [1] + enc_find_error(ex)
                 if wire.enc_json(before) != wire.enc_json(docs[d]): problems.append("module find modified its argument")
                 ops.append([5] + wire.enc_str(text) + wire.enc_json(before)); outs.append(o); log.append("module find %r doc%d -> %r" % (text, d, o[:3]))
+                jops.append({"k": "mfind", "text": text, "doc": before})
         # a compiled query whose filter looks at the root, applied to the same object before and after the object changes
         if envs and rng.random() < 0.8:
             e = rng.randrange(len(envs))
@@ -192,11 +280,13 @@ def cases(ctx, budget):
             try:
                 cq = envs[e].compile(text); compiled.append((e, cq)); o = [2, 0, len(compiled) - 1]
                 ops.append([2, e] + wire.enc_str(text)); outs.append(o); log.append("compile env%d %r" % (e, text))
+                jops.append({"k": "compile", "e": e, "text": text}); cop[len(compiled) - 1] = len(jops) - 1
                 for rnd in range(3):
                     before = copy.deepcopy(doc)
                     try: o = [1] + harness.enc_nodes(cq.find(doc))
                     except Exception as ex: o = [1] + enc_find_error(ex)
                     ops.append([3, len(compiled) - 1] + wire.enc_json(before)); outs.append(o); log.append("apply cq%d to %r -> %r" % (len(compiled) - 1, before, o[:3]))
+                    jops.append({"k": "apply", "cop": cop[len(compiled) - 1], "doc": before})
                     import jsonpath_rfc9535 as _jp
                     if regs[e] == [] and o != fresh_result(_jp.JSONPathEnvironment, text, before):
                         problems.append("compiled query %r applied to %r after earlier applications gives a different result than a fresh compile on equal data" % (text, before))
@@ -232,9 +322,33 @@ def cases(ctx, budget):
         out = [len(outs)]
         for o in outs: out += o
         nontriv = any(o[0] == 1 for o in ops) and any(o[:2] == [1, 0] and len(o) > 3 and o[2] > 0 for o in outs)
+        pend.append((req, out, nontriv, problems, log, docs, ops, outs, jops))
+    # State shared by the whole process (a class-level or module-level cache) is invisible to a comparison with a fresh environment made in
+    # this same process: it is polluted too.  So where the history model and the implementation disagree, the first operation they disagree on
+    # is run again on its own in a fresh interpreter - its environment, that environment's registrations, its compile, nothing else.  A
+    # different result there is a failing history of the property itself: the operation's result depends on what ran before it.
+    exe = getattr(ctx, "exe", None)
+    nslices = 0
+    if exe:
+        replies = build.run_jpx(exe, [p[0] for p in pend])
+        for p, rep in zip(pend, replies):
+            req, out, nontriv, problems, log, docs, ops, outs, jops = p
+            if norm_reply(rep) == out or len(jops) != len(ops) or nslices >= 12: continue
+            k = first_difference(exe, ops, outs)
+            if k is None: continue
+            nslices += 1
+            got = alone(jops, k)
+            here = outs[k][:2] if jops[k]["k"] == "compile" and outs[k][:2] == [2, 0] else outs[k]
+            if got is not None and got != here:
+                problems.append("operation %d (%s) gives %r in this history but %r when it is run on its own in a fresh interpreter: its result depends on what ran before" % (k, log_of(jops[k]), here[:6], got[:6]))
+    for req, out, nontriv, problems, log, docs, ops, outs, jops in pend:
         yield Case({"ops": len(ops), "history": log, "docs": docs}, req, out, None, None, nontriv, "history")
         if problems:
             yield Case({"problems": problems, "history": log, "docs": docs}, None, [9], [118, 0], None, True, "history", True, lambda a, b, p=problems: "; ".join(p[:3]))
+
+
+def log_of(j):
+    return {"compile": "compile %r" % j.get("text"), "find": "find %r" % j.get("text"), "mfind": "module find %r" % j.get("text"), "apply": "apply"}.get(j["k"], j["k"])
 
 
 def norm_reply(r):
